@@ -13,6 +13,7 @@ Section ObjInd.
   Hypothesis Href : forall id k, P (ORef id k).
   Hypothesis Hblank : forall k, P (OBlank k).
   Hypothesis Halias : forall id k, P (OAlias id k).
+  Hypothesis Hval : forall v, P (OVal v).
   Fixpoint obj_ind2 (o : obj) : P o :=
     match o with
     | OLeaf n => Hleaf n
@@ -26,6 +27,7 @@ Section ObjInd.
     | ORef id k => Href id k
     | OBlank k => Hblank k
     | OAlias id k => Halias id k
+    | OVal v => Hval v
     end.
 End ObjInd.
 
@@ -136,7 +138,7 @@ Section Machine.
 
   Lemma item_sim : forall o, item_ok o.
   Proof.
-    induction o as [n|id k items IH|id k|k|id k] using obj_ind2; unfold item_ok;
+    induction o as [n|id k items IH|id k|k|id k|w] using obj_ind2; unfold item_ok;
       intros rt ky rest rg p0 acc nr pt l c v rg' l1 E.
     - (* leaf *)
       cbn in E. inversion E; subst. exists 1. split; [cbn; lia|]. intro f.
@@ -177,6 +179,9 @@ Section Machine.
     - cbn in E. inversion E; subst. exists 1. split; [cbn; lia|]. intro f.
       cbn [Nat.add]. erewrite run_step; [reflexivity|reflexivity|].
       cbn [step obj_id stk reg nis pth lg cur]. rewrite visit_phase_ok. reflexivity.
+    - cbn in E. inversion E; subst. exists 1. split; [cbn; lia|]. intro f.
+      cbn [Nat.add]. erewrite run_step; [reflexivity|reflexivity|].
+      cbn [step obj_id stk reg nis pth lg cur]. rewrite visit_phase_ok. reflexivity.
   Qed.
 
   Lemma run_more : forall f st out, runM f st = out -> out <> OutOfFuel -> forall g, f <= g -> runM g st = out.
@@ -194,7 +199,7 @@ Section Machine.
     remap (lift visit) rr defs root = srb_root impl_blank visit defs root.
   Proof.
     intro root. unfold remap, srb_root, init.
-    destruct root as [n|id k items|id k|k|id k].
+    destruct root as [n|id k items|id k|k|id k|w].
     - cbn [osize]. cbn [Nat.mul Nat.add run stk step obj_id reg lg pth nis cur oref_of].
       unfold visit_phase. cbn [pth lg nis stk reg]. rewrite call_visit_lift.
       destruct (do_visit visit [] KNone (OLeaf n) _) as [[item|] lg']; reflexivity.
@@ -226,6 +231,9 @@ Section Machine.
     - cbn [osize]. cbn [Nat.mul Nat.add run stk step obj_id reg lg pth nis cur oref_of].
       unfold visit_phase. cbn [pth lg nis stk reg]. rewrite call_visit_lift.
       destruct (do_visit visit [] KNone (OAlias id k) _) as [[item|] lg']; reflexivity.
+    - cbn [osize]. cbn [Nat.mul Nat.add run stk step obj_id reg lg pth nis cur oref_of].
+      unfold visit_phase. cbn [pth lg nis stk reg]. rewrite call_visit_lift.
+      destruct (do_visit visit [] KNone (OVal w) _) as [[item|] lg']; reflexivity.
   Qed.
 
   (* self-referential structures terminate: the step budget 2*size+1 always suffices *)
